@@ -221,8 +221,8 @@ fn in_process_case(cx: &mut CaseCtx, input: Input, cfg: &GenCfg) -> CaseResult {
 /// file; with and without a use of the colliding name.
 fn collision_case(cx: &mut CaseCtx, input: Input) -> CaseResult {
     let idx = input.index();
-    let template = idx % 14;
-    let with_use = (idx / 14) % 2 == 1;
+    let template = idx % 17;
+    let with_use = (idx / 17) % 2 == 1;
     let files: Vec<(&str, String)> = match template {
         0 => vec![("a.slice", "module A\nstruct X {}\n".into()), ("b.slice", "module A\ncustom X\n".into())],
         1 => vec![
@@ -284,6 +284,24 @@ fn collision_case(cx: &mut CaseCtx, input: Input) -> CaseResult {
             ("a.slice", "module M\ninterface I { op(p: bool) -> (a: int32, b: int32) }\n".into()),
             ("b.slice", format!("module M::I::op::{}\nstruct X {{}}\n", if with_use { "p" } else { "b" })),
         ],
+        // a definition named like an *enclosing* scope of a deeper module of another file (`A::B` next
+        // to `module A::B::C`): legal, and a reference to it binds to the definition in every order
+        14 => vec![
+            ("a.slice", "module A::B::C\ncustom Deep\n".into()),
+            ("b.slice", format!("module A\nstruct B {{}}\n{}", if with_use { "struct User { b: B, s: Sequence<A::B> }\n" } else { "" })),
+        ],
+        15 => vec![
+            ("a.slice", format!("module A\ninterface B {{}}\n{}", if with_use { "interface D : B {}\n" } else { "" })),
+            ("b.slice", "module A::B::C::D\nstruct Deep {}\n".into()),
+            ("c.slice", "module A::B::C\nstruct Mid { d: D::Deep }\n".into()),
+        ],
+        // tag-only doc comments whose links must be resolved from their own element, whatever was
+        // parsed before them
+        16 => vec![
+            ("a.slice", "module M1\n/// Overview of the first helper.\nstruct Helper {}\n/// @see Helper\nstruct UserOne {}\n".into()),
+            ("b.slice", format!("module M2\nstruct Helper {{}}\n/// @see Helper\nstruct UserTwo {{}}\n{}", if with_use { "/// Overview {@link Helper}.\nstruct Third {}\n" } else { "" })),
+            ("c.slice", "module M3\n/// Has an overview.\nstruct Other {}\n/// @see M1::Helper\ncustom Last\n".into()),
+        ],
         _ => vec![
             ("a.slice", "module M\nenum Outer { A(x: Inner) }\nstruct Before { o: Outer }\n".into()),
             ("b.slice", format!("module M\nstruct Inner {{ back: {} }}\n", if with_use { "Dictionary<int32, Outer>" } else { "Outer?" })),
@@ -296,6 +314,7 @@ fn collision_case(cx: &mut CaseCtx, input: Input) -> CaseResult {
     cx.label_if(matches!(template, 6 | 7), "preprocessor-symbols-across-files");
     cx.label_if(matches!(template, 8 | 9), "cycle-across-files");
     cx.label_if(matches!(template, 10..=13), "member-vs-module");
+    cx.label_if(matches!(template, 14 | 15), "definition-vs-enclosing-scope-of-a-module");
     let dir = CaseDir::new(&cx.workdir, cx.shard, cx.case_no);
     for (n, t) in &files {
         dir.write(n, t.as_bytes());
@@ -423,7 +442,7 @@ impl Check for C15 {
         "C15"
     }
     fn rule(&self) -> String {
-        "families: in-process = proptest choice sequences -> multi-file programs (1..4 files, cross-file and cross-module references, aliases, inheritance, re-opened modules; valid, with warnings, or with one injected error) written to real files and compiled with compile_from_options in every permutation of the files and every source/reference assignment: acceptance, per-path observed content and the multiset of warnings (code, level, message, span) must not change; collisions = 28 templates (same definition in two files, definition vs nested module of another file, enumerator / field / operation / parameter / return member vs module of another file, preprocessor symbols defined in one file and tested in another, containment cycles spread over files and used from outside; each with and without a variation) in every order and every source/reference assignment; binary = the same argv (one generator with five arguments; now and then an extra module-less file at a drawn position) twice in fresh processes (byte-identical stdout, stderr, exit status, generator request) plus one random permutation and reference assignment (acceptance and per-path decoded request content). Non-trivial = >= 2 files".into()
+        "families: in-process = proptest choice sequences -> multi-file programs (1..4 files, cross-file and cross-module references, aliases, inheritance, re-opened modules; valid, with warnings, or with one injected error) written to real files and compiled with compile_from_options in every permutation of the files and every source/reference assignment: acceptance, per-path observed content and the multiset of warnings (code, level, message, span) must not change; collisions = 34 templates (same definition in two files, definition vs nested module of another file, enumerator / field / operation / parameter / return member vs module of another file, preprocessor symbols defined in one file and tested in another, containment cycles spread over files and used from outside; each with and without a variation) in every order and every source/reference assignment; binary = the same argv (one generator with five arguments; now and then an extra module-less file at a drawn position) twice in fresh processes (byte-identical stdout, stderr, exit status, generator request) plus one random permutation and reference assignment (acceptance and per-path decoded request content). Non-trivial = >= 2 files".into()
     }
     fn assumptions(&self) -> Vec<String> {
         vec!["only the order of files and of reports may change; error diagnostics of rejected programs are not compared across arrangements (only that they are rejected)".into()]
@@ -463,7 +482,7 @@ impl Check for C15 {
         };
         let cfg2 = cfg.clone();
         vec![
-            Family::enumerate("collisions", 28, 1, collision_case),
+            Family::enumerate("collisions", 34, 1, collision_case),
             Family::bytes("in-process", 700, tier.pick(600, 8_000), move |cx, i| in_process_case(cx, i, &cfg)),
             Family::bytes("binary", 700, tier.pick(60, 1_000), move |cx, i| binary_case(cx, i, &cfg2)),
         ]
